@@ -24,6 +24,7 @@ import (
 	"github.com/kafscale/platform/addons/processors/sql-processor/internal/decoder"
 	"github.com/kafscale/platform/addons/processors/sql-processor/internal/discovery"
 	"github.com/kafscale/platform/addons/processors/sql-processor/internal/server"
+	kafsql "github.com/kafscale/platform/addons/processors/sql-processor/internal/sql"
 	"github.com/kafscale/platform/addons/processors/sql-processor/internal/verifkit"
 )
 
@@ -664,6 +665,303 @@ func c37FamilySession(rng *rand.Rand, acl c37ACL, pairs [][2]string) []c37Query 
 }
 
 // ---------------------------------------------------------------------------
+// Statement-terminator / separator / comment / quoting oddities. The upstream
+// parser tokenises the forwarded text on white space, drops one trailing ';',
+// knows no comments, no quoting and no second statement: the token after the
+// first FROM and the token after the first [LEFT] JOIN are the topics it reads,
+// wherever they stand. These texts put an allowed or a forbidden topic into such
+// a position before / behind / inside something that another reader of the same
+// bytes might take for the end of the statement, a comment, a string or a second
+// statement.
+// ---------------------------------------------------------------------------
+
+var c37OddWS = []string{"\n", "\t", "\r\n", "  ", " \n ", "\f", "\v", "\u00a0", "\u2003", "\n\n", " \r"}
+
+func c37Gap(rng *rand.Rand) string {
+	if rng.Intn(8) == 0 {
+		return c37OddWS[rng.Intn(len(c37OddWS))]
+	}
+	return " "
+}
+
+// c37GenSep returns what stands between two parts of a text (with the white
+// space around it, possibly none) and the kind of separator it is.
+func c37GenSep(rng *rand.Rand) (string, string) {
+	var core, fam string
+	switch x := rng.Intn(10); {
+	case x < 6:
+		core, fam = []string{";", ";", ";", ";;", ";;;", "; ;", ";\n;", ";\t;;"}[rng.Intn(8)], "semicolon"
+	case x < 8:
+		core, fam = []string{"--", "/*", "*/", "/**/", "#", "//", "/* x */", "-- x"}[rng.Intn(8)], "comment"
+	case x < 9:
+		core, fam = []string{",", ")", "(", "\\;", "';'", "\";\"", "\\", "()"}[rng.Intn(8)], "punct"
+	default:
+		core, fam = "", "whitespace"
+	}
+	side := func() string {
+		switch rng.Intn(10) {
+		case 0, 1:
+			return ""
+		case 2, 3, 4:
+			return c37OddWS[rng.Intn(len(c37OddWS))]
+		}
+		return " "
+	}
+	l, r := side(), side()
+	if core == "" && l+r == "" {
+		l = c37OddWS[rng.Intn(len(c37OddWS))]
+	}
+	glue := "own_token"
+	switch {
+	case core == "":
+		glue = "only"
+	case l == "" && r == "":
+		glue = "glued_both"
+	case l == "":
+		glue = "glued_left"
+	case r == "":
+		glue = "glued_right"
+	}
+	return l + core + r, fam + "_" + glue
+}
+
+func c37GenSepQuery(rng *rand.Rand, acl c37ACL) c37Query {
+	k := func(s string) string { return c37Case(rng, s) }
+	g := func() string { return c37Gap(rng) }
+	spell := func(t string) string { // letter case, now and then quoted
+		t = k(t)
+		switch rng.Intn(14) {
+		case 0:
+			return `"` + t + `"`
+		case 1:
+			return "'" + t + "'"
+		case 2:
+			return "`" + t + "`"
+		}
+		return t
+	}
+	a := c37PickTopic(rng, acl, true)
+	x := c37PickTopic(rng, acl, false) // any topic if the ACL forbids none
+	if rng.Intn(4) == 0 {
+		x = c37PickTopic(rng, acl, true)
+	}
+	for x == a {
+		x = c37Universe[rng.Intn(len(c37Universe))]
+	}
+	b := c37PickTopic(rng, acl, true)
+	for tries := 0; b == a || b == x; tries++ {
+		if tries < 8 {
+			b = c37PickTopic(rng, acl, true)
+		} else {
+			b = c37Universe[rng.Intn(len(c37Universe))]
+		}
+	}
+	sep, sepName := c37GenSep(rng)
+	end := []string{"", "", ";", " ;", ";;", "; ", " ; ;", ";\n", "; -- done", ";/* */", " ;\u00a0"}[rng.Intn(11)]
+	ex := ""
+	if rng.Intn(4) == 0 {
+		ex = k("explain") + g()
+	}
+	cols := c37Cols(rng, 0)
+	jcols := cols
+	if strings.Contains(jcols, "json_value(_value") || strings.Contains(jcols, "_offset") {
+		jcols = "*"
+	}
+	jtail := " " + k("within") + " 10m " + k("last") + " 1h"
+	if rng.Intn(3) == 0 {
+		jtail += " " + k("limit") + " 10"
+	}
+	stail := func() string {
+		return []string{"", "", " " + k("limit") + " 5", " " + k("last") + " 1h", " " + k("tail") + " 3", " " + k("scan full"), " " + k("where") + " _partition = 0",
+			" " + k("order by") + " _ts " + k("desc") + " " + k("limit") + " 2"}[rng.Intn(8)]
+	}
+	jkw := k("join")
+	if rng.Intn(3) == 0 {
+		jkw = k("left") + g() + k("join")
+	}
+	la, ra := []string{"", "a", "o"}[rng.Intn(3)], []string{"", "b", "s"}[rng.Intn(3)]
+	on := ""
+	if rng.Intn(4) != 0 {
+		l, r := "_key", "_key"
+		if la != "" {
+			l = la + "._key"
+		}
+		if ra != "" {
+			r = ra + "._key"
+		}
+		if rng.Intn(4) == 0 && ra != "" {
+			r = "json_value(" + ra + "._value, '$.id')"
+		}
+		on = " " + k("on") + " " + l + " = " + r
+	}
+	if la != "" {
+		la = " " + la
+	}
+	if ra != "" {
+		ra = " " + ra
+	}
+	var text, tmpl string
+	switch t := rng.Intn(14); {
+	case t < 5: // the join clause stands behind the separator
+		tmpl = "join_behind_separator"
+		text = ex + k("select") + " " + jcols + " " + k("from") + g() + spell(a) + la + sep + jkw + g() + spell(x) + ra + on + jtail
+	case t < 6: // the separator stands somewhere inside the join clause
+		tmpl = "separator_inside_join_clause"
+		s1, s2, s3 := " ", " ", " "
+		switch rng.Intn(3) {
+		case 0:
+			s1 = sep
+		case 1:
+			s2 = sep
+		default:
+			s3 = sep
+		}
+		text = ex + k("select") + " " + jcols + " " + k("from") + " " + spell(a) + la + " " + jkw + s1 + spell(x) + s2 + strings.TrimPrefix(ra+on, " ") + s3 + strings.TrimPrefix(jtail, " ")
+	case t < 9: // two parts that each look like a statement (or a clause, or nothing), a topic in each
+		tmpl = "two_parts"
+		part := func(t string) string {
+			switch rng.Intn(10) {
+			case 0, 1, 2, 3:
+				pex := ""
+				if rng.Intn(5) == 0 {
+					pex = k("explain") + " "
+				}
+				return pex + k("select") + " " + c37Cols(rng, 0) + " " + k("from") + g() + spell(t) + stail()
+			case 4:
+				return k("show partitions from") + g() + spell(t)
+			case 5:
+				return k("describe") + g() + spell(t)
+			case 6:
+				return k("show topics")
+			case 7:
+				return []string{"SET x = 1", "RESET ALL", "set search_path to " + t}[rng.Intn(3)]
+			case 8:
+				return []string{"", "foo", "commit", k("from") + " " + spell(t), k("select") + " 1"}[rng.Intn(5)]
+			default:
+				return jkw + g() + spell(t) + jtail
+			}
+		}
+		p1, p2 := part(x), part(a)
+		if rng.Intn(2) == 0 {
+			p1, p2 = part(a), part(x)
+		}
+		text = p1 + sep + p2
+	case t < 11: // a clause enclosed in something that is a comment / a string / a statement of its own elsewhere
+		tmpl = "enclosed_clause"
+		pi := rng.Intn(10)
+		pair := [][2]string{{"/*", "*/"}, {"--", "\n"}, {";", ";"}, {"(", ")"}, {"'", "'"}, {"\"", "\""}, {"/*", "*/;"}, {"#", "\n"}, {"$$", "$$"}, {"--", "\r\n"}}[pi]
+		og, cg := " ", " "
+		if rng.Intn(5) == 0 {
+			og = ""
+		}
+		if rng.Intn(5) == 0 || strings.TrimSpace(pair[1]) == "" {
+			cg = ""
+		}
+		open, cl := " "+pair[0]+og, cg+pair[1]+" "
+		sepName = "enclosed_in_" + []string{"block_comment", "line_comment_lf", "semicolons", "parentheses", "single_quotes", "double_quotes", "block_comment_semicolon", "hash_comment_lf", "dollar_quotes", "line_comment_crlf"}[pi]
+		if rng.Intn(2) == 0 {
+			text = ex + k("select") + " * " + k("from") + " " + spell(a) + " a" + open + jkw + " " + spell(x) + " x" + cl + k("join") + " " + spell(b) + " b " + k("on") + " a._key = b._key" + jtail
+		} else {
+			text = ex + k("select") + " " + cols + open + k("from") + " " + spell(x) + cl + k("from") + " " + spell(a) + stail()
+		}
+	case t < 12: // the separator stands around FROM
+		tmpl = "separator_at_from"
+		switch rng.Intn(3) {
+		case 0:
+			text = ex + k("select") + " " + cols + sep + k("from") + g() + spell(x) + stail()
+		case 1:
+			text = ex + k("select") + " " + cols + " " + k("from") + sep + spell(x) + stail()
+		default:
+			text = ex + k("select") + " " + cols + " " + k("from") + g() + spell(x) + sep + strings.TrimPrefix(stail(), " ")
+		}
+	default:
+		tmpl = "show_describe"
+		y := a
+		if rng.Intn(2) == 0 {
+			x, y = y, x
+		}
+		switch rng.Intn(6) {
+		case 0:
+			text = k("show partitions from") + g() + spell(x) + sep + spell(y)
+		case 1:
+			text = k("describe") + g() + spell(x) + sep + spell(y)
+		case 2:
+			text = k("show partitions from") + sep + spell(x)
+		case 3:
+			text = k("describe") + sep + spell(x)
+		case 4:
+			text = k("show partitions") + sep + k("from") + g() + spell(x)
+		default:
+			text = k("show") + sep + k("topics") + g() + spell(x)
+		}
+	}
+	return c37Query{text + end, "sep/" + tmpl + "/" + sepName}
+}
+
+// c37UpstreamPlan answers "which topics does the upstream's own parser find in
+// exactly this text": the real kafsql.Parse, after the two things the upstream
+// does with a text before parsing it (catalog texts are answered from the topic
+// list - the seams and the answer show that -, SET / RESET are acknowledged).
+func c37UpstreamPlan(text string) (kind string, topics []c37Read) {
+	defer func() {
+		if p := recover(); p != nil {
+			kind, topics = "parser_panic", nil
+		}
+	}()
+	trimmed := strings.TrimSpace(text)
+	lower := strings.ToLower(trimmed)
+	if strings.Contains(lower, "pg_catalog") || strings.Contains(lower, "information_schema") {
+		return "catalog", nil
+	}
+	if strings.HasPrefix(lower, "set ") || strings.HasPrefix(lower, "reset ") {
+		return "set", nil
+	}
+	parsed, err := kafsql.Parse(text)
+	if err != nil {
+		return "rejected", nil
+	}
+	kind = string(parsed.Type)
+	q := parsed
+	if q.Type == kafsql.QueryExplain && q.Explain != nil {
+		q = *q.Explain
+	}
+	switch q.Type {
+	case kafsql.QuerySelect:
+		topics = append(topics, c37Read{q.Topic, "FROM topic for kafsql.Parse(forwarded text)"})
+		if q.JoinTopic != "" {
+			topics = append(topics, c37Read{q.JoinTopic, "JOIN topic for kafsql.Parse(forwarded text)"})
+		}
+	case kafsql.QueryShowPartitions, kafsql.QueryDescribe:
+		topics = append(topics, c37Read{q.Topic, "topic for kafsql.Parse(forwarded text)"})
+	}
+	return kind, topics
+}
+
+// c37MidTextSemicolon: a ';' with something other than ';' and white space behind it.
+func c37MidTextSemicolon(q string) bool {
+	i := strings.IndexByte(q, ';')
+	return i >= 0 && strings.TrimSpace(strings.ReplaceAll(q[i:], ";", " ")) != ""
+}
+
+var c37CommentMarks = []string{"--", "/*", "*/", "#", "//"}
+
+func c37HasCommentMark(q string) bool {
+	for _, m := range c37CommentMarks {
+		if strings.Contains(q, m) {
+			return true
+		}
+	}
+	return false
+}
+
+func c37BlankOut(q string, marks ...string) string {
+	for _, m := range marks {
+		q = strings.ReplaceAll(q, m, strings.Repeat(" ", len(m)))
+	}
+	return q
+}
+
+// ---------------------------------------------------------------------------
 // Client and session
 // ---------------------------------------------------------------------------
 
@@ -813,6 +1111,7 @@ type c37Step struct {
 	Shape     string    `json:"shape"`
 	Forwarded bool      `json:"forwarded"`
 	Read      []c37Read `json:"upstream_read"`
+	Parsed    []c37Read `json:"upstream_parser_topics,omitempty"` // existing topics kafsql.Parse finds in the forwarded text
 	Audit     string    `json:"proxy_audit,omitempty"`
 	Errors    []string  `json:"errors,omitempty"`
 }
@@ -942,6 +1241,29 @@ func (e *c37Env) session(acl c37ACL, cacheEntries int, qs []c37Query) ([]c37Obs,
 					o.Bad = append(o.Bad, rd)
 				}
 			}
+			// the same question put to the upstream's parser: which existing topics does it find in the forwarded bytes
+			for _, f := range o.Fwd {
+				if f.Type != 'Q' {
+					continue
+				}
+				_, named := c37UpstreamPlan(f.Text)
+			nextNamed:
+				for _, rd := range named {
+					if c37TopicIndex(rd.Topic) < 0 {
+						continue // not an existing topic: nothing can be read from it
+					}
+					o.Step.Parsed = append(o.Step.Parsed, rd)
+					if acl.allows(rd.Topic) {
+						continue
+					}
+					for _, b := range o.Bad {
+						if b.Topic == rd.Topic {
+							continue nextNamed
+						}
+					}
+					o.Bad = append(o.Bad, rd)
+				}
+			}
 		}
 		out = append(out, o)
 	}
@@ -952,10 +1274,12 @@ func c37Squeeze(q string) string { return strings.Join(strings.Fields(q), " ") }
 
 func TestVerifC37Proxy(t *testing.T) {
 	r := verifkit.Start(t, "C37", "proxy")
-	defer r.Finish("real proxy (proxy.New + handleConn per accepted loopback connection, default dialer) in front of the real SQL server whose lister/decoder/resolver seams record topic accesses; sessions of 1-6 messages (single topic, joins, EXPLAIN, SHOW PARTITIONS, DESCRIBE, SHOW TOPICS, catalog, SET, extended-protocol Parse; the interesting topic placed before / across / at / beyond byte 512 by whitespace or a long column list; respellings and same-first-512-bytes siblings inside one session to meet the decision cache) x 13 ACL configurations x cache sizes (decision cache TTL one hour in every session); the upstream also holds four families of topics whose names differ only in a number set off by non-word characters (metrics-1/-2, tenant-3.audit/tenant-7.audit, region-1/-2, events.2025/.2026), four ACLs allow one member and forbid its sibling (allow list, deny list, * with deny, prefix* with deny), and under those every second session (cache size 1, 2 or 100) sends a query on the allowed member (only topic, EXPLAIN, either side of a join, SHOW PARTITIONS, DESCRIBE, with literals in its tail; sometimes repeated respelled) and then the byte-identical text with the forbidden sibling's digits. Per client message the bytes the proxy wrote to the upstream are parsed (tee): either nothing, or exactly one Query message whose text equals the client's; nothing but Query messages is ever forwarded; for a forwarded query every existing topic the upstream read (segment decoded, partitions listed, segments counted by EXPLAIN, schema column or catalog name returned) must be allowed by a reference reading of the ACL. non-trivial = a forwarded query that made the upstream read at least one topic under an ACL that forbids some topic",
+	defer r.Finish("real proxy (proxy.New + handleConn per accepted loopback connection, default dialer) in front of the real SQL server whose lister/decoder/resolver seams record topic accesses; sessions of 1-6 messages (single topic, joins, EXPLAIN, SHOW PARTITIONS, DESCRIBE, SHOW TOPICS, catalog, SET, extended-protocol Parse; the interesting topic placed before / across / at / beyond byte 512 by whitespace or a long column list; respellings and same-first-512-bytes siblings inside one session to meet the decision cache) x 13 ACL configurations x cache sizes (decision cache TTL one hour in every session); the upstream also holds four families of topics whose names differ only in a number set off by non-word characters (metrics-1/-2, tenant-3.audit/tenant-7.audit, region-1/-2, events.2025/.2026), four ACLs allow one member and forbid its sibling (allow list, deny list, * with deny, prefix* with deny), and under those every second session (cache size 1, 2 or 100) sends a query on the allowed member (only topic, EXPLAIN, either side of a join, SHOW PARTITIONS, DESCRIBE, with literals in its tail; sometimes repeated respelled) and then the byte-identical text with the forbidden sibling's digits. Per client message the bytes the proxy wrote to the upstream are parsed (tee): either nothing, or exactly one Query message whose text equals the client's; nothing but Query messages is ever forwarded; for a forwarded query every existing topic the upstream read (segment decoded, partitions listed, segments counted by EXPLAIN, schema column or catalog name returned) must be allowed by a reference reading of the ACL. Further n/2 sessions (2-4 messages each, now and then respelled or repeated for the decision cache) consist of texts with statement-terminator / separator / comment / quoting oddities around FROM and JOIN clauses that name allowed and forbidden topics: a separator (one or several ';' as a token of its own or glued to the token before / behind it, comment marks -- /* */ # //, other punctuation, unusual white space: CR, LF, FF, VT, NBSP, EM SPACE) between FROM <topic> [alias] and a [LEFT] JOIN clause, inside the join clause, around FROM, between two statement-like parts (SELECT / EXPLAIN / SHOW PARTITIONS / DESCRIBE / SHOW TOPICS / SET / a dangling JOIN or FROM clause / garbage, topic roles in either order), a JOIN or FROM clause enclosed in /* */, -- ... LF, ; ... ;, ( ), quotes or $$ in front of the regular clause, SHOW PARTITIONS / DESCRIBE with a separator before or behind the topic, topic names sometimes in double / single / back quotes, trailing ';', ';;', '; -- done', ';/* */'. For every forwarded Query message the monitor additionally asks the upstream's own parser (the real kafsql.Parse, called on exactly the forwarded bytes, after the upstream's catalog / SET dispatch): every existing topic it finds as FROM / JOIN / SHOW PARTITIONS / DESCRIBE topic (also under EXPLAIN) must be allowed by the reference ACL, whether or not the upstream got as far as touching storage. non-trivial = a forwarded query that made the upstream read at least one topic under an ACL that forbids some topic",
 		"the accept loops of proxy.Run and server.Run are reproduced by the harness (port 0 listeners); handleConn / handleConnection are the code under test",
 		"a topic that does not exist upstream (e.g. a name with a trailing ';') cannot be read and is never counted",
 		"queries are ASCII: the parser crash on length-changing runes (C35) would kill the proxy process too",
+		"the upstream's dispatch in front of its parser (a text containing pg_catalog / information_schema is answered from the topic list, SET / RESET are acknowledged) is mirrored by the monitor when it asks kafsql.Parse which topics the forwarded text names; what the upstream really touched is still taken from the seams",
+		"classes authorized_on_text_cut_at_statement_terminator / authorized_on_text_with_comment_removed are assigned by a counterfactual: the same text with every ';' (resp. every comment mark) blanked out, sent alone under the same ACL, is denied or reads no forbidden topic",
 		"violation classes that mention byte 512 are assigned by a counterfactual: the same query with its whitespace squeezed below 512 bytes, sent alone under the same ACL, is denied or reads no forbidden topic")
 	if rp := verifkit.Replay(); rp != nil {
 		// bin/check --replay <witness>: only the witness session is run (floors do not apply)
@@ -973,6 +1297,7 @@ func TestVerifC37Proxy(t *testing.T) {
 	}
 	const workers = 4 // each with its own proxy listener, upstream server and recorder
 	n := r.N(400, 6000)
+	nSep := n / 2 // further sessions (indices n..n+nSep-1) of texts with terminator / separator / comment / quoting oddities
 	var wg sync.WaitGroup
 	for w := 0; w < workers; w++ {
 		env := c37NewEnv(t)
@@ -980,8 +1305,12 @@ func TestVerifC37Proxy(t *testing.T) {
 		wg.Add(1)
 		go func(w int, env *c37Env) {
 			defer wg.Done()
-			for si := w; si < n; si += workers {
-				c37Session(r, env, si)
+			for si := w; si < n+nSep; si += workers {
+				if si < n {
+					c37Session(r, env, si)
+				} else {
+					c37SepSession(r, env, si)
+				}
 			}
 		}(w, env)
 	}
@@ -992,6 +1321,34 @@ func TestVerifC37Proxy(t *testing.T) {
 	r.Floor("shapes", 30)
 	r.Floor("forbidden_digit_sibling_sent_after_forwarded_allowed_member", int64(n/16))
 	r.Floor("digit_sibling_shapes", 6)
+	r.Floor("separator_oddity_messages", int64(nSep))
+	r.Floor("separator_oddity_forwarded_and_read_topics", int64(nSep/4))
+	r.Floor("separator_oddity_texts_in_which_upstream_parser_finds_forbidden_topic", int64(nSep/4))
+	r.Floor("mid_text_semicolon_texts_in_which_upstream_parser_finds_forbidden_topic", int64(nSep/10))
+	r.Floor("comment_mark_texts_in_which_upstream_parser_finds_forbidden_topic", int64(nSep/40))
+	r.Floor("separator_kinds", 16)
+	r.Floor("separator_templates", 6)
+}
+
+// c37SepSession: 2-4 texts with terminator / separator / comment / quoting
+// oddities, now and then respelled or repeated (decision cache), under one ACL.
+func c37SepSession(r *verifkit.Run, env *c37Env, si int) {
+	rng := r.Rand(si)
+	aclIdx := si % len(c37ACLs)
+	acl := c37ACLs[aclIdx]
+	cacheEntries := []int{0, 1, 2, 100}[rng.Intn(4)]
+	var qs []c37Query
+	for nq := 2 + rng.Intn(3); len(qs) < nq; {
+		q := c37GenSepQuery(rng, acl)
+		qs = append(qs, q)
+		switch rng.Intn(8) {
+		case 0:
+			qs = append(qs, c37Variant(rng, q))
+		case 1:
+			qs = append(qs, q)
+		}
+	}
+	c37Judge(r, env, si, aclIdx, acl, cacheEntries, qs)
 }
 
 func c37Session(r *verifkit.Run, env *c37Env, si int) {
@@ -1090,6 +1447,29 @@ func c37Judge(r *verifkit.Run, env *c37Env, si, aclIdx int, acl c37ACL, cacheEnt
 					}
 				}
 			}
+			isSep := strings.HasPrefix(q.Shape, "sep/")
+			if isSep {
+				r.Count("separator_oddity_messages", 1)
+				r.Seen("separator_kinds", strings.SplitN(q.Shape[strings.LastIndexByte(q.Shape, '/')+1:], "+", 2)[0])
+				r.Seen("separator_templates", strings.SplitN(q.Shape, "/", 3)[1])
+				// would the upstream's parser find a forbidden existing topic in this text, if it got it?
+				_, named := c37UpstreamPlan(q.Text)
+				for _, rd := range named {
+					if c37TopicIndex(rd.Topic) >= 0 && !acl.allows(rd.Topic) {
+						r.Count("separator_oddity_texts_in_which_upstream_parser_finds_forbidden_topic", 1)
+						if c37MidTextSemicolon(q.Text) {
+							r.Count("mid_text_semicolon_texts_in_which_upstream_parser_finds_forbidden_topic", 1)
+						}
+						if c37HasCommentMark(q.Text) {
+							r.Count("comment_mark_texts_in_which_upstream_parser_finds_forbidden_topic", 1)
+						}
+						break
+					}
+				}
+				if len(o.Fwd) > 0 && len(o.Step.Read) > 0 {
+					r.Count("separator_oddity_forwarded_and_read_topics", 1)
+				}
+			}
 			isParse := strings.HasPrefix(q.Shape, "extended_parse")
 			var queries []c37Fwd
 			for _, f := range o.Fwd {
@@ -1142,6 +1522,27 @@ func c37Judge(r *verifkit.Run, env *c37Env, si, aclIdx int, acl c37ACL, cacheEnt
 						} else if len(cf[0].Bad) > 0 {
 							cls = "unauthorized_topic_read"
 						}
+					}
+				}
+				if cls == "unauthorized_topic_read" {
+					// do statement terminators / comment marks in the text matter? the same text with those
+					// characters blanked out (same length, same offsets), alone in a new session
+					try := func(text, class string) {
+						if cls != "unauthorized_topic_read" || text == q.Text {
+							return
+						}
+						cf, problem := env.session(acl, 0, []c37Query{{Text: text, Shape: "counterfactual"}})
+						if problem != "" || len(cf) != 1 {
+							r.Inconclusive(fmt.Sprintf("session %d: counterfactual session failed: %s", si, problem))
+						} else if len(cf[0].Fwd) == 0 || len(cf[0].Bad) == 0 {
+							cls = class
+						}
+					}
+					if c37MidTextSemicolon(q.Text) {
+						try(c37BlankOut(q.Text, ";"), "authorized_on_text_cut_at_statement_terminator")
+					}
+					if c37HasCommentMark(q.Text) {
+						try(c37BlankOut(q.Text, c37CommentMarks...), "authorized_on_text_with_comment_removed")
 					}
 				}
 				r.Violation(cls, fmt.Sprintf("ACL %+v: forwarded query (%d bytes, %s) made the upstream read %v; query=%q", acl, len(q.Text), q.Shape, o.Bad, c37Clip(q.Text)), replay())
